@@ -788,9 +788,15 @@ def check_history_free(ctx, name, sub, form, out1, e):
     the method is bound to) is the caller's own data and is not judged."""
     build = e['build']
     if e['kind'] != 'filter':
+        kept = snap(out1)
         for k in (1, 2, 3):
             fnp, argsp, kwp = build(np.random.RandomState(sub + k), form)
             ctx.sut(fnp, *argsp, **kwp)
+            # (0) the result handed out earlier is the caller's: a later call with other arguments (of the same shapes) must not
+            # change it (a result assembled in a reused work array would otherwise also hide (i): the old object then holds
+            # the newest values)
+            ctx.check(snap(out1) == kept, f'earlier_result_changed:{name}',
+                      lambda: f'{name}: a result returned earlier changed when the callable was called again with other arguments')
             fn4, args4, kw4 = build(np.random.RandomState(sub), form)
             r = out_equal(out1, ctx.sut(fn4, *args4, **kw4))
             ctx.check(r is None, f'depends_on_previous_call:{name}',
